@@ -440,6 +440,32 @@ func (t *translator) funcBody(stmts []ast.Stmt, en env, res gotype) (string, err
 			return "", err
 		}
 		return fmt.Sprintf("(if %s then %s else %s)", c.lean, th, el), nil
+	case *ast.AssignStmt:
+		// `x := e` ahead of the returns: a let-binding
+		if s.Tok != token.DEFINE || len(s.Lhs) != 1 || len(s.Rhs) != 1 || len(stmts) < 2 {
+			return "", fmt.Errorf("unsupported assignment form")
+		}
+		id, ok := s.Lhs[0].(*ast.Ident)
+		if !ok {
+			return "", fmt.Errorf("unsupported assignment form")
+		}
+		e, err := t.expr(s.Rhs[0], en)
+		if err != nil {
+			return "", err
+		}
+		if e.isConst {
+			return "", fmt.Errorf("untyped constant local %s", id.Name)
+		}
+		en2 := env{}
+		for k, v := range en {
+			en2[k] = v
+		}
+		en2[id.Name] = e.typ
+		rest, err := t.funcBody(stmts[1:], en2, res)
+		if err != nil {
+			return "", err
+		}
+		return fmt.Sprintf("(let %s : %s := %s; %s)", id.Name, e.typ.lean(), e.lean, rest), nil
 	}
 	return "", fmt.Errorf("unsupported statement %T", stmts[0])
 }
